@@ -8,21 +8,24 @@ Open Scope list_scope.
 
 Section FailMain.
   Variable S : schema.
+  Variable nb : bool.
+  Hypothesis NB : nb = true -> forall on o n f,
+    find_object on (s_objects S) = Some o -> find_field n (o_fields o) = Some f -> should_use_batch f = false.
 
-  Theorem failing_resolver_fails_query : forall fuel rf q root sched,
+  Theorem failing_resolver_fails_query_rel : forall fuel rf q root sched,
     snd (eval_ref S fuel q root) <> [] -> good (snd (eval_ref S fuel q root)) ->
-    (exists e f, init fixed S q root = inr e /\ In f (snd (eval_ref S fuel q root)) /\ perr_sim e f = true) \/
+    (exists e f, init fixed S q root = inr e /\ In f (snd (eval_ref S fuel q root)) /\ rel nb e f = true) \/
     (exists st0, init fixed S q root = inl st0 /\
        (complete (run_sched fixed S fuel sched st0) = true ->
         exists e f, finish rf (run_sched fixed S fuel sched st0) = Some (RErr e) /\
-                    In f (snd (eval_ref S fuel q root)) /\ perr_sim e f = true)).
+                    In f (snd (eval_ref S fuel q root)) /\ rel nb e f = true)).
   Proof.
     intros fuel rf q root sched Hne Hgood.
     destruct fuel as [|fuel'].
     { exfalso. eapply (not_good_nest [] err_fuel); [reflexivity| |exact Hgood]. simpl. now left. }
     unfold eval_ref in *. unfold init.
     destruct (flatten fixed q) as [items|e] eqn:Efl.
-    2:{ left. exists (nest [] e), (nest [] e). split; [reflexivity|]. split; [simpl; now left|apply perr_sim_refl]. }
+    2:{ left. exists (nest [] e), (nest [] e). split; [reflexivity|]. split; [simpl; now left|apply rel_refl]. }
     destruct (find_object (s_query S) (s_objects S)) as [o|] eqn:Eo.
     2:{ exfalso. eapply (not_good_nest [] err_invalid); [reflexivity| |exact Hgood]. simpl. now left. }
     destruct root as [| |?|tn fs] eqn:Eroot;
@@ -39,9 +42,9 @@ Section FailMain.
     destruct (init_fold o root items [] [] Hnodirs Hff) as [us [HFus Efold]].
     rewrite Efold. rewrite !app_nil_r, !rev_involutive.
     right. eexists. split; [reflexivity|]. intros Hc.
-    destruct (units_fail_like_reference S (Datatypes.S fuel') fuel') as [_ HG].
+    destruct (units_fail_like_reference nb S (Datatypes.S fuel') NB fuel') as [_ HG].
     assert (Hunits : exists rs, Forall2 (P fixed S (Datatypes.S fuel')) us rs /\
-              ErrsOk (errs rs) (flat_map (fun it => snd (eval_field S true (eval_obj S fuel') o fs [] it)) items)).
+              ErrsOk nb (errs rs) (flat_map (fun it => snd (eval_field S true (eval_obj S fuel') o fs [] it)) items)).
     { assert (Hg : forall it, In it items -> good (snd (eval_field S true (eval_obj S fuel') o fs [] it))).
       { intros it Hit f Hf. apply Hgood. unfold rsref. rewrite flat_map_map. apply in_flat_map. eauto. }
       clear Efold Hc Hne Hgood. revert Hg. clear -HFus HG Eroot.
@@ -55,6 +58,7 @@ Section FailMain.
         { unfold unit_fails. unfold u at 2. cbn [u_items top_unit flat_map]. rewrite app_nil_r. now rewrite Hev. }
         destruct (HG (Datatypes.S fuel') u (le_n _) (le_n _)) as [E [[rsu [Fu Eu]] Ou]].
         + intros a b [<-|[]] [<-|[]]. apply path_sim_refl.
+        + intros _. unfold u, top_unit. simpl. apply andb_false_r.
         + rewrite EF. apply Hg. now left.
         + exists ((x_heap (exec_unit fixed S (Datatypes.S fuel') u) ++ heaps rsu,
                    x_errs (exec_unit fixed S (Datatypes.S fuel') u) ++ errs rsu) :: rs).
@@ -76,3 +80,66 @@ Section FailMain.
     - exfalso. apply (HB Hne). exact Herr.
   Qed.
 End FailMain.
+
+(** Any schema: the failure is located up to list indices. *)
+Theorem failing_resolver_fails_query : forall S fuel rf q root sched,
+  snd (eval_ref S fuel q root) <> [] -> good (snd (eval_ref S fuel q root)) ->
+  (exists e f, init fixed S q root = inr e /\ In f (snd (eval_ref S fuel q root)) /\ perr_sim e f = true) \/
+  (exists st0, init fixed S q root = inl st0 /\
+     (complete (run_sched fixed S fuel sched st0) = true ->
+      exists e f, finish rf (run_sched fixed S fuel sched st0) = Some (RErr e) /\
+                  In f (snd (eval_ref S fuel q root)) /\ perr_sim e f = true)).
+Proof.
+  intros S. apply (failing_resolver_fails_query_rel S false). intros H. discriminate.
+Qed.
+
+Theorem units_fail_like_reference_sim : forall S fuel fr, GR false S fuel fr /\ GU false S fuel fr.
+Proof. intros S fuel fr. apply units_fail_like_reference. intros H. discriminate. Qed.
+
+(** No field of the schema is run as a batch (every other mode - plain, Expensive, the fallback of a
+    batch field, NumParallelInvocations - is allowed). *)
+Definition no_batch_fields (S : schema) : bool :=
+  forallb (fun o => forallb (fun f => negb (should_use_batch f)) (o_fields o)) (s_objects S).
+
+Lemma find_object_in : forall n l o, find_object n l = Some o -> In o l.
+Proof.
+  induction l as [|x t IH]; simpl; intros o H; [discriminate|].
+  destruct (String.eqb n (o_name x)); [inversion H; now left|right; auto].
+Qed.
+Lemma find_field_in : forall n l f, find_field n l = Some f -> In f l.
+Proof.
+  induction l as [|x t IH]; simpl; intros f H; [discriminate|].
+  destruct (String.eqb n (f_name x)); [inversion H; now left|right; auto].
+Qed.
+
+(** ... then the failure is located exactly: the very error value and the very response path -
+    aliases and list indices - of a needed failure. *)
+Theorem failing_resolver_fails_query_exact : forall S fuel rf q root sched,
+  no_batch_fields S = true ->
+  snd (eval_ref S fuel q root) <> [] -> good (snd (eval_ref S fuel q root)) ->
+  (exists e, init fixed S q root = inr e /\ In e (snd (eval_ref S fuel q root))) \/
+  (exists st0, init fixed S q root = inl st0 /\
+     (complete (run_sched fixed S fuel sched st0) = true ->
+      exists e, finish rf (run_sched fixed S fuel sched st0) = Some (RErr e) /\
+                In e (snd (eval_ref S fuel q root)))).
+Proof.
+  intros S fuel rf q root sched Hnb Hne Hgood.
+  assert (NB : true = true -> forall on o n f,
+            find_object on (s_objects S) = Some o -> find_field n (o_fields o) = Some f -> should_use_batch f = false).
+  { intros _ on o n f Ho Hf. unfold no_batch_fields in Hnb. rewrite forallb_forall in Hnb.
+    pose proof (Hnb o (find_object_in _ _ _ Ho)) as Hf'. rewrite forallb_forall in Hf'.
+    pose proof (Hf' f (find_field_in _ _ _ Hf)) as H. now apply negb_true_iff in H. }
+  assert (Heq : forall e f : perr, rel true e f = true -> e = f).
+  { intros [e p] [e' p'] H. unfold rel, perr_eqb in H. simpl in H. apply andb_prop in H as [H1 H2].
+    f_equal.
+    - destruct e as [c t], e' as [c' t']. unfold err_eqb in H1. simpl in H1. apply andb_prop in H1 as [Hc Ht].
+      apply String.eqb_eq in Ht. subst. destruct c, c'; try discriminate; reflexivity.
+    - revert p' H2. induction p as [|a p IH]; destruct p' as [|b p']; simpl; intros H; try discriminate; auto.
+      apply andb_prop in H as [Ha Hp]. f_equal; [|now apply IH].
+      destruct a, b; simpl in Ha; try discriminate; f_equal; [now apply String.eqb_eq|now apply Nat.eqb_eq]. }
+  destruct (failing_resolver_fails_query_rel S true NB fuel rf q root sched Hne Hgood)
+    as [[e [f [Hi [Hf Hr]]]]|[st0 [Hi Hrun]]].
+  - left. exists e. split; auto. now rewrite (Heq _ _ Hr).
+  - right. exists st0. split; auto. intros Hc. destruct (Hrun Hc) as [e [f [Hfin [Hf Hr]]]].
+    exists e. split; auto. now rewrite (Heq _ _ Hr).
+Qed.
